@@ -19,7 +19,7 @@ func init() {
 		Explanation: "SEE/PATH/VSA rules on the advertiser: R-C07-1 handle() returns the solicitation's source (all-nodes for ::) and a zero address otherwise; " +
 			"R-C07-2 the listener callback forwards each valid destination exactly once; R-C07-3 every request taken from the channel is handed to exactly one schedgroup.Delay whose closure sends to that iteration's own address; " +
 			"R-C07-4 the unicast delay is Int63n(maxRADelay) ns with maxRADelay == 500ms; R-C07-5 no WriteTo is reachable under unicast-only ∧ multicast destination and the destination reaches WriteTo unchanged; " +
-			"R-C07-6 counters pair with events: one received-counter per handled message, one transmit-error per failed send, one sent-counter (typed by IsMulticast) per path on which WriteTo was actually executed R-C07-5 suppression is complete: send guards, or every caller of send establishes ¬UnicastOnly or a non-multicast destination; task closures are followed through factories to the Delay call. R-C07-3 also: no function value made in schedule() captures by reference a variable assigned on every loop iteration.",
+			"R-C07-6 counters pair with events: one received-counter per handled message, one transmit-error per failed send, one sent-counter (typed by IsMulticast) per path on which WriteTo was actually executed R-C07-5 suppression is complete: send guards, or every caller of send establishes ¬UnicastOnly or a non-multicast destination; task closures are followed through factories to the Delay call. R-C07-3 also: no function value made in schedule() captures by reference a variable assigned on every loop iteration. R-C07-5 also: a path of send on which WriteTo failed returns an error (sendWorker counts from send's result).",
 		Assumptions: []string{
 			"Go type checker and go/ssa construction are correct",
 			"schedgroup.Group.Delay runs its closure exactly once after the delay unless the group context is cancelled first",
